@@ -5,6 +5,12 @@ import importlib, pkgutil, os
 NOT_APPLICABLE = {}
 
 
+def ready():
+    """ids the coordinator has integrated (one per line in harness/ready.txt); only these are registered"""
+    p = os.path.join(os.path.dirname(os.path.abspath(__file__)), "ready.txt")
+    return {l.strip().upper() for l in open(p) if l.strip() and not l.startswith("#")}
+
+
 def collect():
     checks = {}
     d = os.path.join(os.path.dirname(os.path.abspath(__file__)), "checks")
@@ -12,6 +18,8 @@ def collect():
         if not m.name.startswith("c") or not m.name[1:].isdigit():
             continue
         mod = importlib.import_module("harness.checks." + m.name)
+        if m.name.upper() not in ready():
+            continue
         if getattr(mod, "META", None) and not mod.META.get("disabled"):
             checks[m.name.upper()] = mod.META
     return checks
